@@ -530,9 +530,18 @@ def observe (env : PrecEnv) (x : LXact) : PrecEnv := fun c =>
     | some a => if a.comm = c then max m a.prec else m
     | none => m) (env c)
 
+/-- the three spellings of a default (bucket) account declaration: `A X` (textual.cc
+    437-438) and `bucket X` (textual.cc 1344-1345) both reach
+    `default_account_directive` (textual.cc 540-544); `account X` with the indented
+    sub-directive `default` reaches `account_default_directive` (textual.cc 972-973,
+    1057-1060).  All three ASSIGN `journal->bucket`: the last declaration wins. -/
+inductive BucketDecl
+  | A | bucket | accountDefault
+deriving DecidableEq, Repr
+
 inductive JItem
   | xact (x : LXact)
-  | bucket (a : String)      -- `A account` / `bucket account` (textual.cc 535-539)
+  | bucket (how : BucketDecl) (a : String)   -- a default-account declaration, in any of its spellings
 
 structure JState where
   env : PrecEnv
@@ -546,7 +555,7 @@ def JState.init : JState := { env := fun _ => 0, bucket := none, xacts := [], er
     finalize throws is left out and counts one error; one that is all-null is
     left out silently. -/
 def step (enum : Balance → Balance) (st : JState) : JItem → JState
-  | .bucket a => { st with bucket := some a }
+  | .bucket _ a => { st with bucket := some a }
   | .xact x =>
     let env' := observe st.env x
     match finalize env' st.bucket enum x with
@@ -556,6 +565,12 @@ def step (enum : Balance → Balance) (st : JState) : JItem → JState
 
 def load (enum : Balance → Balance) (items : List JItem) : JState :=
   items.foldl (step enum) JState.init
+
+/-- the account named by the last default-account declaration of a directive list -/
+def lastBucket : List JItem → Option String
+  | [] => none
+  | .bucket _ a :: rest => (match lastBucket rest with | some b => some b | none => some a)
+  | .xact _ :: rest => lastBucket rest
 
 /-! ### Exact residual (what `bal -B` sums) -/
 
